@@ -2,6 +2,7 @@
 history based and multi-instance.  Shared by C10, C11, C15, C16, C17, C18 (and the fast-packet clause of C07)."""
 import datetime
 import hashlib
+import json
 import os
 import random
 import re
@@ -176,7 +177,7 @@ class Traffic:
             payload = (r.choice([1851, 135, 1857]) | (3 << 11) | (4 << 13)).to_bytes(2, "little") + bytes(r.getrandbits(8) & 0x7F for _ in range(r.randrange(1, 20)))
         key = (pgn, src)
         s = self.seq.get(key, r.randrange(8))
-        self.seq[key] = (s + 1) % 8
+        self.seq[key] = s if r.random() < 0.3 else (s + 1) % 8      # some senders restart / reuse the counter
         fr = spec_frames(s, payload)
         if r.random() < 0.5:
             fr[-1] = fr[-1] + bytes([0xFF] * (8 - len(fr[-1])))
@@ -225,13 +226,14 @@ def gen_history(rnd, db, n_steps, sources=(1, 2, 7), claims="mixed", junk=0.15, 
         src = rnd.choice(sources)
         k = rnd.random()
         w = rnd.random() < 0.5 if window is None else window
+        c_claim = 0.16 if claims != "none" else 0.0
         if pending and k < 0.35:
             h.append(pending.pop(0) + (False, w))
-        elif k < 0.5:
+        elif k < 0.47:
             h.append(t.single(src) + (False, w))
-        elif k < 0.62:
+        elif k < 0.59:
             pending += t.fast(src, lossy=rnd.random() < 0.2)
-        elif k < 0.62 + (0.2 if claims != "none" else 0):
+        elif k < 0.59 + c_claim:
             manu = rnd.choice(["garmin", "maretron", "airmar", "unknown"])
             if claims == "mixed" and src in claimed and rnd.random() < 0.4:
                 c = claimed[src]           # repeated identical claim
@@ -239,12 +241,15 @@ def gen_history(rnd, db, n_steps, sources=(1, 2, 7), claims="mixed", junk=0.15, 
                 c = t.claim(src, manu, unique=rnd.choice([11, 22, None]))
                 claimed[src] = c
             h.append(c + (False, w))
-        elif k < 0.62 + 0.2 + junk:
+        elif k < 0.59 + c_claim + junk * 0.8:
             h.append(t.junk(src) + (False, w))
-        elif k < 0.62 + 0.2 + junk + 0.08:
+        elif k < 0.59 + c_claim + junk * 0.8 + 0.05:
             h.append(t.proprietary(src) + (True, w))
+        elif k < 0.59 + c_claim + junk * 0.8 + 0.08:
+            # a single-frame message handed over as already combined
+            h.append(t.single(src) + (True, w))
         else:
-            # a whole message given pre-assembled (already_combined)
+            # a whole fast-packet message given pre-assembled (already_combined)
             fr = t.fast(src)
             payload = b"".join(f[2:] if i == 0 else f[1:] for i, (_, _, _, _, f) in enumerate(fr))
             payload = payload[:fr[0][4][1]]
@@ -326,12 +331,32 @@ def monitor_filters(ctx, n_hist=6, steps=50):
     db = pgncorr.Db(ctx["repo"])
     rnd = random.Random(ctx["seed"] + 62)
     n = 0
+    plan = []
     for cfg in CONFIGS:
         if not (cfg.get("exclude") or cfg.get("include")) or (cfg.get("exclude") and cfg.get("include")):
             continue
+        plan += [(cfg, None)] * n_hist
+    # directed: filters by id built from what the unfiltered decoder actually returns on the history (ids sharing a PGN,
+    # so that a filtered-out message and a kept one travel on the same fast-packet stream)
+    for _ in range(30 * n_hist):
+        h = gen_history(rnd, db, 2 * steps, sources=(1, 2), claims="none", junk=0.05)
+        u = Real({})
+        ids = {}
+        for inp in h:
+            o, m = u.feed(inp)
+            if m is not None:
+                ids.setdefault(m.PGN, set()).add(m.id)
+        u.close()
+        multi = sorted(i for g in ids.values() if len(g) > 1 for i in g)
+        pool = multi or sorted(i for g in ids.values() for i in g)
+        if not pool:
+            continue
+        pick = rnd.sample(pool, min(len(pool), rnd.choice([1, 2])))
+        plan.append(({rnd.choice(["exclude", "include"]): pick}, h))
+    for cfg, h0 in plan:
         base = {k: v for k, v in cfg.items() if k not in ("exclude", "include", "dump", "dumppgns")}
-        for _ in range(n_hist):
-            h = gen_history(rnd, db, steps)
+        for _ in range(1):
+            h = h0 if h0 is not None else gen_history(rnd, db, steps)
             a, b = Real({**base, "exclude": cfg.get("exclude", []), "include": cfg.get("include", [])}), Real(base)
             for k, inp in enumerate(h):
                 n += 1
@@ -470,3 +495,175 @@ def replay_history(rp):
     outs = [d.feed(x)[0] for x in h]
     d.close()
     return outs
+
+# ----------------------------------------------------------------------------- C07: the same frames through the real front-ends
+FRAME_FORMATS = ("tcp", "usb", "yd", "basic-frame")
+WHOLE_FORMATS = ("actisense", "basic-combined")
+
+
+def can_id(pgn, prio, src, dst):
+    """29-bit identifier by the J1939 rule, written independently of the repo's own _build_header"""
+    if (pgn >> 8) & 0xFF < 240:
+        return (prio << 26) | (((pgn & 0x3FF00) | (dst & 0xFF)) << 8) | src
+    return (prio << 26) | ((pgn & 0x3FFFF) << 8) | src
+
+
+def via(real, fmt, rnd, pgn, prio, src, dst, data, window=False, whole=None):
+    """hand one frame (or one whole payload) to the real decoder through a public decode_* entry point"""
+    d = real.d
+    now = datetime.datetime.now()
+    d.started_at = now if window else now - datetime.timedelta(minutes=11)
+    i = can_id(pgn, prio, src, dst)
+    try:
+        if fmt == "tcp":
+            m = d.decode_tcp(bytes([(len(data) & 0xF) | 0x80]) + i.to_bytes(4, "big") + data + bytes(8 - len(data)))
+        elif fmt == "usb":
+            from nmea2000.utils import calculate_canbus_checksum
+            body = bytes([0xaa, 0x55, 1, 2, 1]) + i.to_bytes(4, "little") + bytes([len(data)]) + data + bytes(8 - len(data)) + b"\x00"
+            m = d.decode_usb(body + bytes([calculate_canbus_checksum(body)]))
+        elif fmt == "yd":
+            hx = data.hex().upper() if rnd.random() < 0.5 else data.hex()
+            m = d.decode_yacht_devices_string("%02d:%02d:%02d.%03d %s %08X %s" % (rnd.randrange(24), rnd.randrange(60), rnd.randrange(60), rnd.randrange(1000), rnd.choice("RT"), i,
+                                                                                  " ".join(hx[k:k + 2] for k in range(0, len(hx), 2))))
+        elif fmt in ("basic-frame", "basic-combined"):
+            line = "2024-03-0%d-1%d:2%d:3%d.%03d,%d,%d,%d,%d,%d,%s" % (rnd.randrange(1, 9), rnd.randrange(10), rnd.randrange(10), rnd.randrange(10), rnd.randrange(1000), prio, pgn, src, dst, len(data),
+                                                                   ",".join("%02x" % b for b in data))
+            m = d.decode_basic_string(line, fmt == "basic-combined")
+        elif fmt == "actisense":
+            m = d.decode_actisense_string("A%06d.%03d %05X %05X %s" % (rnd.randrange(10 ** 6), rnd.randrange(1000), (src << 12) | (dst << 4) | prio, pgn, data.hex().upper()))
+        else:
+            raise AssertionError(fmt)
+    except Exception:
+        return "raised"
+    if m is None:
+        return "none"
+    return canon_msg(m, real.opaque(m, whole if whole is not None else data))
+
+
+def format_cases(ctx, per_def=None):
+    """[(definition key, type, pgn, prio, src, dst, payload bytes)]: every definition of the database (Single and Fast),
+    legal payloads plus random ones, the length the database gives (or a plausible variable tail)"""
+    db = pgncorr.Db(ctx["repo"])
+    rnd = random.Random(ctx["seed"] + 97)
+    per_def = per_def or (2 if ctx["tier"] == "quick" else 6)
+    out = []
+    for key, p in sorted(db.defs.items()):
+        if p["Type"] not in ("Single", "Fast"):
+            continue
+        xs = pgncorr.payloads_for(p, rnd, per_field=False, n_random=per_def - 1)[3:]
+        for x in xs[:per_def]:
+            n = p.get("Length") or max(1, (x.bit_length() + 7) // 8)
+            n = min(n, 8) if p["Type"] == "Single" else max(1, min(n, 223))
+            data = (x & ((1 << (8 * n)) - 1)).to_bytes(n, "little")
+            pgn = p["PGN"]
+            dst = rnd.choice([255, 0, 35]) if (pgn >> 8) & 0xFF < 240 else 255
+            out.append((key, p["Type"], pgn, rnd.randrange(8), rnd.choice([1, 7, 200]), dst, data))
+    return out
+
+
+def frames_of(rnd, typ, data, seq):
+    if typ != "Fast":
+        return [data]
+    fr = spec_frames(seq, data)
+    if rnd.random() < 0.5:
+        fr[-1] = fr[-1] + bytes([0xFF] * (8 - len(fr[-1])))
+    return fr
+
+
+def scripts(rnd, typ, data):
+    """deliveries of one message to ONE decoder each: [(label, [(format, bytes, already_combined, is_last_of_a_message)])].
+    Frame-level formats: the message frame by frame, the same message again with the SAME counter (a restarted sender), then
+    pre-assembled, then with the next counter.  Whole-message formats: pre-assembled, then frame by frame, then pre-assembled."""
+    seq = rnd.randrange(8)
+    out = []
+    for f in FRAME_FORMATS:
+        st = []
+        for sq in (seq, seq):
+            fr = frames_of(rnd, typ, data, sq)
+            st += [(f, x, False, i == len(fr) - 1) for i, x in enumerate(fr)]
+        st.append(("actisense", data, True, True))
+        fr = frames_of(rnd, typ, data, (seq + 1) % 8)
+        st += [(f, x, False, i == len(fr) - 1) for i, x in enumerate(fr)]
+        out.append((f, st))
+    for w in WHOLE_FORMATS:
+        fr = frames_of(rnd, typ, data, seq)
+        g = rnd.choice(FRAME_FORMATS)
+        out.append((w, [(w, data, True, True)] + [(g, x, False, i == len(fr) - 1) for i, x in enumerate(fr)] + [(w, data, True, True)]))
+    return out
+
+
+def suite_formats(ctx):
+    """real decoder fed through each public front-end vs the decoder model fed the same frames: every Single and Fast definition,
+    frame by frame through the four frame-level formats, pre-assembled through the two whole-message formats, mixed on one decoder"""
+    harness.load_repo()
+    rnd = random.Random(ctx["seed"] + 98)
+    s = DecSuite("decoder-via-formats", "real NMEA2000Decoder driven through decode_tcp / decode_usb / decode_yacht_devices_string / decode_basic_string (per frame) and "
+                 "decode_actisense_string / decode_basic_string(already_combined) (whole payload) vs Dec.step on the same frames: every Single and Fast definition of the database, "
+                 "legal and random payloads, fast-packet messages split into frames (random counter, last frame padded or not); per decoder: the message frame by frame, again with the "
+                 "same counter, pre-assembled, with the next counter (frame-level formats) / pre-assembled, frame by frame, pre-assembled (whole-message formats); per step the returned message")
+    k = 0
+    for key, typ, pgn, prio, src, dst, data in format_cases(ctx):
+        for label, steps in scripts(rnd, typ, data):
+            k += 1
+            real = Real({})
+            name = f"f{k}"
+            s.add(f"dec.new {name} {cfg_spec({})}", "ok", label + "-new")
+            for fmt, x, comb, _last in steps:
+                o = via(real, fmt, rnd, pgn, prio, src, dst, x, whole=data)
+                s.add(feed_line(name, (pgn, prio, src, dst, x, comb, False)), f"{o} #0", f"{label}-{typ}-{o.split()[0]}")
+            real.close()
+    return [s.run()]
+
+
+def _formats_verdict(real_outs):
+    """real_outs: {script label: [(is_last, output)]} -> None when the property holds, else a description"""
+    msgs, bad = set(), {}
+    for label, outs in real_outs.items():
+        for i, (last, o) in enumerate(outs):
+            if last:
+                msgs.add(o)
+            elif o != "none":
+                bad[label] = f"step {i}: a non-final frame returned {o[:80]}"
+    if len(msgs) > 1:
+        ref = real_outs["actisense"][0][1]
+        for label, outs in real_outs.items():
+            for i, (last, o) in enumerate(outs):
+                if last and o != ref and label not in bad:
+                    bad[label] = f"step {i}: {o[:160]}"
+    return bad or None
+
+
+def monitor_formats(ctx, per_def=None):
+    """C07 itself on the real code: the message a Single/Fast definition decodes to is the same through all deliveries
+    (frame by frame or pre-assembled, whatever was delivered before on that decoder); frame-wise delivery returns nothing before the last frame"""
+    harness.load_repo()
+    rnd = random.Random(ctx["seed"] + 99)
+    hits, n = [], 0
+    for key, typ, pgn, prio, src, dst, data in format_cases(ctx, per_def):
+        sc = scripts(rnd, typ, data)
+        outs = {}
+        for label, steps in sc:
+            real = Real({})
+            n += 1
+            outs[label] = [(last, via(real, fmt, rnd, pgn, prio, src, dst, x, whole=data)) for fmt, x, comb, last in steps]
+            real.close()
+        bad = _formats_verdict(outs)
+        if bad:
+            hits.append({"key": f"C07/formats-disagree/{key}", "what": f"PGN {pgn} ({key}, {typ}) payload {data.hex()}: deliveries {sorted(bad)} differ from the pre-assembled Actisense delivery",
+                         "replay": {"kind": "formats", "def": key, "type": typ, "pgn": pgn, "prio": prio, "src": src, "dst": dst, "data": data.hex(),
+                                    "scripts": [[label, [[fmt, x.hex(), comb, last] for fmt, x, comb, last in steps]] for label, steps in sc],
+                                    "expected": outs["actisense"][0][1][:300], "got": bad}})
+    return hits, n
+
+
+def replay_formats(rp):
+    harness.load_repo()
+    rnd = random.Random(5)
+    data = bytes.fromhex(rp["data"])
+    outs = {}
+    for label, steps in rp["scripts"]:
+        real = Real({})
+        outs[label] = [(last, via(real, fmt, rnd, rp["pgn"], rp["prio"], rp["src"], rp["dst"], bytes.fromhex(x), whole=data)) for fmt, x, comb, last in steps]
+        real.close()
+    bad = _formats_verdict(outs)
+    return bad is None, json.dumps(bad)[:600]
